@@ -51,7 +51,9 @@ SPEC = dict(
              "regenerated code (c14_src_wire) and the framing lemma of the regenerated serialize_field for every content (c14_src_string_lengths). "
              "BlockIdExt.__init__ / to_bytes / from_bytes / __eq__ / __hash__ of tl/block.py are regenerated the same way and proved equal to the "
              "model's toBytes / fromBytes / pyEq / pyHash for all ids, so the byte round trip and eq => same hash hold of the regenerated code "
-             "(c14_src_blockid). "
+             "(c14_src_blockid); BlockIdExt.to_dict / from_dict and BlockId.__init__ / to_dict / from_dict are regenerated too (__init__ read a second time "
+             "with the dynamically typed arguments from_dict passes) and proved to be the model's toDict / fromDict for all ids and dicts, with both "
+             "round trips and the masterchain shard for a missing shard (c14_src_blockid_dict). "
              "The PARSER TlSchemas.deserialize is regenerated too (one Lean definition per loop body: the call with the id lookup, the field "
              "loop with the flags test through bin(), the value of a field - fixed-size reads, bytes/string framing, the auto-deserialise "
              "branch with its `while j < byte_len` loop and the untouchables, vectors with the guard of fix 110bf4a and the one-field pseudo "
@@ -61,13 +63,13 @@ SPEC = dict(
              "raise), so both round-trip theorems hold of regenerated deserialize after regenerated serialize (c14_src_roundtrip_plain, "
              "c14_src_roundtrip_auto), the framing reader of the regenerated code returns exactly the content and skips exactly the frame for "
              "every length below 2^24 (c14_src_string_lengths_reader), and no budget is ever the reason for a failure: the result with depth "
-             "(len/4+1)(R+2) and len+2 loop iterations is the result with any larger budgets (c19_src_tl_total).",
+             "(len/4+1)(R+2) and len+2 loop iterations is the result with any larger budgets (c19_src_tl_total, Properties/C19Tl.lean, audited with C19).",
         level_note='Trusted: Lean kernel (propext, Classical.choice, Quot.sound), Spec/Tl.lean as the TL format, the table translator '
                    '(harness/translate/tl_table.py), the hand model Model/Tl.lean (tied by sampled correspondence, not by proof), Python '
                    'for the serialiser and the parser the hand model is now PROVED equal to the regenerated methods (trusted instead: the translator pydyn.py/pyobj.py, '
                    'PyTl.lean as the meaning of the Python operations, and the declared interface of tlengine.py: schema objects = table records, '
                    'type-string tests = their classification, fuel = recursion depth; validated against the library on ~4000 calls per change); '
-                   'the parser (deserialize) is tied the same way (declared in addition: bin() of the mode/flags value is read for ints only, the untouchables are the '
+                   'the parser (deserialize) is tied the same way (declared in addition: the untouchables are the '
                    'table\'s, the pseudo-schema call for a vector element of a base type does not count as a recursion level; ~5400 parses validated per change); '
                    'str.encode/decode = strict UTF-8, bytes.fromhex/hex inverse, tuple hash. Fuel = recursion depth: theorems hold for every '
                    'sufficiently large depth budget; normalize carries the same budget (its re-parses are the model parser on the content) and '
@@ -533,6 +535,13 @@ def check_blockid(ctx, W, B):
     st, r = _call(via_tl)
     if st != 'ok' or not (r == a):
         ctx.fail('blockid:tl', 'BlockIdExt -> dict -> TL -> dict -> BlockIdExt changed the id', v, repr(r), a.to_dict())
+    # a missing / None shard is the masterchain shard 0x8000000000000000 (c14_src_blockid_dict, last clause), for both classes and both entry points
+    short = {'workchain': -1, 'seqno': 5, 'root_hash': bytes(range(32)).hex(), 'file_hash': bytes(32).hex()}
+    st, r = _call(lambda: (BlockIdExt(-1, None, 5, bytes(32), bytes(32)).shard, BlockIdExt.from_dict(dict(short)).shard, BlockId(-1, None, 5).shard,
+                           BlockId.from_dict({'workchain': -1, 'seqno': 5}).shard))
+    ctx.case(('blockid-default-shard',), nontrivial=True)
+    if st != 'ok' or r != (-2 ** 63,) * 4:
+        ctx.fail('blockid:default-shard', 'a block id built without a shard does not get the masterchain shard -2^63', short, r, (-2 ** 63,) * 4)
 
 
 def check_crc(ctx, W):
@@ -593,6 +602,46 @@ def src_search(ctx, W, B):
             pairs.append((c, V.gen_obj(W, rng, c, 0, o, combo=combo)))
     for c, v in TE.diff_values(ctx, W, pairs)[:40]:
         check_value(ctx, W, B, c, v, 'source-diff')
+    B.flush()
+    if len(ctx.failures) > n0:
+        return True
+    # bytes contents built from 1..3 serialised objects (the re-parse loop): regenerated parser vs model parser, differing ones to the oracle
+    shaped = []
+    hosts = [c for c in W.ctors if W.fully_typed(c) and W.canonical(c) and not any(_untouchable(W, c, a['field']) for a in c['args']) and
+             any(a['ety'] == ('base', 'bytes') and not a['vec'] and a['cond'] is None for a in c['args'])]
+    pool = [c for c in W.ctors if W.covered(c) and W.canonical(c)]
+    for k in range(60):
+        host = rng.choice(hosts)
+        v = V.gen_obj(W, rng, host, 0, {'depth': 1, 'big': False})
+        a = rng.choice([a for a in host['args'] if a['ety'] == ('base', 'bytes') and not a['vec'] and a['cond'] is None])
+        inners = []
+        for _ in range(1 + k % 3):
+            ic = rng.choice(pool)
+            inners.append((ic, V.gen_obj(W, rng, ic, 0, {'depth': 1, 'big': False})))
+        v[a['field']] = b''.join(V.enc_obj(W, ic, iv, True) for ic, iv in inners)
+        exp = dict(v)
+        exp[a['field']] = inners[0][1] if len(inners) == 1 else [iv for _, iv in inners]
+        shaped.append((host, v, exp))
+    hit = TE.diff_values(ctx, W, [(h, v) for h, v, _ in shaped])
+    for h, v, exp in shaped:
+        if any(v is v2 for _, v2 in hit):
+            check_value(ctx, W, B, h, v, 'nested-in-bytes', expect_auto=exp)
+    B.flush()
+    if len(ctx.failures) > n0:
+        return True
+    # nothing found on the boundary values: the whole validation corpus (2-3 values of every covered constructor), its serialisations whole,
+    # with a tail, cut and with a changed last byte, regenerated parser vs model parser; differing values go to the round-trip / wire oracle
+    try:
+        corpus = TE.validation_values(W)
+    except Exception as e:
+        corpus = []
+        ctx.notes.append(f'source-diff search: validation corpus not available: {type(e).__name__}: {str(e)[:120]}')
+    for c, v in TE.diff_values(ctx, W, corpus, damaged=True)[:40]:
+        check_value(ctx, W, B, c, v, 'source-diff')
+        try:
+            damaged(ctx, W, B, W.lib.serialize(W.lib.list[c['idx']], copy.deepcopy(v)), c)
+        except Exception:
+            pass
     B.flush()
     if len(ctx.failures) > n0:
         return True
@@ -662,6 +711,21 @@ def run(ctx):
     if st == 'slow':
         ctx.fail('slow:vector-length', f'vector length 2^22 over 0 remaining bytes did not finish within {CAP:.0f}s', {'data': d.hex()}, f'> {CAP:.0f}s', 'fast')
     B.add(f'tldeser {d.hex()} 1', lambda out, line: None if (out == 'err') == (st == 'err') else ctx.corr_broken(f'vector bound: model {out} library {st}'))
+    B.flush()
+    bool_flags(ctx, B)
+
+
+def bool_flags(ctx, B):
+    """a flags word that is a Bool (`bin(True)` = '0b1', a bool is an int): model vs library on a table of its own (Drv/Tl.lean boolFlagTable)"""
+    for d in TE.bool_flag_inputs():
+        try:
+            want = 'ok' + TE.bool_flag_expected(d)
+        except Exception:
+            want = 'err'
+        ctx.case(('bool-flags', d.hex()), nontrivial=True)
+        ctx.count('bool-flags:' + want[:2])
+        B.add(f'tldeserx {d.hex()} 1', lambda out, line, want=want, d=d: None if out == want else
+              ctx.corr_broken(f'tldeserx (Bool flags word): model={out[:120]} library={want[:120]} data={d.hex()}'))
     B.flush()
 
 
